@@ -283,8 +283,11 @@ class DataflowAnalysisAttacher(Transformer):
             # are potentially defined and which are definitely only used by
             # this call
             defines, uses = OrderedSet(), OrderedSet()
-            outvals = [val for arg, val in o.arg_iter() if str(arg.type.intent).lower() in ('inout', 'out')]
-            invals = [val for arg, val in o.arg_iter() if str(arg.type.intent).lower() in ('inout', 'in')]
+            # A dummy argument without declared intent may be read and written by the callee
+            def _intent(arg):
+                return str(arg.type.intent).lower() if arg.type.intent else 'inout'
+            outvals = [val for arg, val in o.arg_iter() if _intent(arg) in ('inout', 'out')]
+            invals = [val for arg, val in o.arg_iter() if _intent(arg) in ('inout', 'in')]
 
             arrays = [v for v in FindVariables().visit(outvals) if isinstance(v, Array)]
             dims = OrderedSet(v for a in arrays for v in self._symbols_from_expr(a.dimensions))
@@ -423,7 +426,7 @@ class DataflowAnalysis(AbstractDataflowAnalysis):
         if hasattr(module_or_routine, 'arguments'):
             live_symbols = attacher._symbols_from_expr(
                 module_or_routine.arguments,
-                condition=lambda a: a.type.intent and a.type.intent.lower() in ('in', 'inout')
+                condition=lambda a: not a.type.intent or a.type.intent.lower() in ('in', 'inout')
             )
 
         if hasattr(module_or_routine, 'spec'):
